@@ -170,3 +170,28 @@ Proof.
   split; [vm_compute; reflexivity|]. split; [vm_compute; reflexivity|]. split; [vm_compute; reflexivity|].
   split; vm_compute; reflexivity.
 Qed.
+
+(* The "nothing left to learn" disjunct of done (np.all(upper == lower)) coincides with "the gap is zero", whichever gap
+   function the environment was configured with (DoneGap.v, via GapCompare.v): for every table with lower <= upper
+   everywhere, a known grand coalition and upper(empty) = 0, for all n.  So a zero reward means every coalition is
+   pinned down, and the flag does not depend on the gap function. *)
+From ICG Require Import GapCompare DoneGap.
+Theorem C09_done_iff_gap_zero :
+  forall n t g,
+    (forall S, bounded n S -> lo (get t S) <= hi (get t S)) ->
+    known (get t (grand n)) = true -> hi (get t 0%N) == 0 ->
+    exists x, ev_gap g n t = Some x /\ (dg_degenerate n t = true <-> x == 0).
+Proof. exact dg_done_iff_gap_zero. Qed.
+Print Assumptions C09_done_iff_gap_zero.
+
+Theorem C09_done_flag_is_the_models : forall e, ev_all_degenerate e = dg_degenerate (e_n e) (e_tab e).
+Proof. exact dg_degenerate_env. Qed.
+Print Assumptions C09_done_flag_is_the_models.
+
+Theorem C09_zero_gap_independent_of_gap_function :
+  forall n t g g' x x',
+    (forall S, bounded n S -> lo (get t S) <= hi (get t S)) ->
+    known (get t (grand n)) = true -> hi (get t 0%N) == 0 ->
+    ev_gap g n t = Some x -> ev_gap g' n t = Some x' -> (x == 0 <-> x' == 0).
+Proof. exact dg_zero_gap_independent. Qed.
+Print Assumptions C09_zero_gap_independent_of_gap_function.
